@@ -129,12 +129,17 @@ def resume_job(job):
             plan.append((files[-1], max(4, job["n_total"] // 2), "|n_total/2"))            # nothing left to do: zero iterations
             if mids:
                 plan.append((mids[len(mids) // 2], 2 * job["n_total"], "|n_particles*2"))   # resumed by a sampler with another batch size
+            if mids and any(f.endswith("_final.state") for f in files):
+                # an extension of the run that keeps checkpointing into the same directory: afterwards the final checkpoint's name must
+                # hold the END of the extended run (not what an earlier run left there)
+                plan.append((mids[-1], 3 * job["n_total"], "|extend+save"))
+                plan.append(([f for f in files if f.endswith("_final.state")][0], 4, "|final-after-extension"))
         for f, nt, tag in plan:
             s2, _ = drivers.build_sampler(conf_np2 if tag == "|n_particles*2" else conf, rec, out_dir=out_dir)
             rec.attach(s2)
             np.random.seed(12345)  # the ambient stream of the resuming process is unrelated
             _, _, tr2 = drivers.record_run(conf_np2 if tag == "|n_particles*2" else conf, n_total=nt, seed=12345, label=job["label"] + "|resume:" + os.path.basename(f) + tag,
-                                           resume=f, out_dir=out_dir, rec=rec, sampler=s2, save_every=None)
+                                           resume=f, out_dir=out_dir, rec=rec, sampler=s2, save_every=(job["save_every"] if tag == "|extend+save" else None))
             tr2["meta"]["checkpoint"] = os.path.basename(f)
             traces.append(tr2)
     finally:
